@@ -1018,11 +1018,10 @@ def natural_order_differs(o, cur, tables):
 
 def in_refuted_region(o, cur, tables):
     """inputs on which the faithful model is PROVED to violate the specification (`_refuted` theorems of
-    Properties/C20.v): there an implementation that agrees with the specification is accepted without
-    consulting the model (the code has been repaired), and one that does not is a violation anyway.
-    Left: the natural join of two tables whose shared columns stand in a different order (the code pairs the
-    key columns by position); the carriage-return region of the delimited round trip is handled in compare_rt."""
-    return natural_order_differs(o, cur, tables)
+    Properties/C20.v).  For table operations there is none left (reverse sort, cross join and natural-join
+    key pairing were repaired and the model follows the repaired code); the carriage-return region of the
+    delimited round trip is handled in compare_rt."""
+    return False
 
 
 def _decode_obs(v):
